@@ -17,6 +17,7 @@ CONSTANTS
   V6 = "l1"
   NoIP = "noip"
   ByMac = TRUE
+  RacyStart = FALSE
 CONSTRAINT Mark
 CONSTRAINT Last
 POSTCONDITION TraceAccepted
